@@ -667,6 +667,27 @@ def check_C11(ctx):
             small.append({"op": "run", "env": {}, "version": None, "root": gen.mkcmd("app", decls=copy.deepcopy(sdecls), spec=sp, policy=0),
                           "argv": [t for u in v for t in u[0]]})
         sgroups.append((start, len(small)))
+    # flags folded in front of a valued option whose value is the NEXT token ("-co v"): the unit is two tokens long whichever
+    # option the scan is looking for, also when the option the spec asks for first is written after it
+    units2 = [(["-co", "v"], "co"), (["-ao", "v"], "ao"), (["-cov"], "co"), (["-aco", "v"], "aco"), (["-a"], "a"), (["-b"], "b"), (["-c"], "c"),
+              (["-o", "w"], "o"), (["-bo=v"], "bo")]
+    specs2 = ["[-a] [-c] [-o]", "[-a] [-b] [-c] [-o...]", "-a... [-c...] [-o...]", "[-b] (-a | -c)... [-o]", "[-o...] [-a...] [-c...] [-b]"]
+    lines2 = [ls for n in (2, 3) for ls in itertools.product(units2, repeat=n)]
+    lines2 = [ls for ls in lines2 if any(not set(ls[i][1]) & set(ls[i + 1][1]) for i in range(len(ls) - 1))]
+    lines2 = [ls for ls in lines2 if len(ls) == 2] + rng.sample([ls for ls in lines2 if len(ls) == 3], ctx.scale(150, 600))
+    for sp in specs2:
+        for ls in lines2:
+            start = len(small)
+            vs = [list(ls)]
+            for i in range(len(ls) - 1):
+                if not set(ls[i][1]) & set(ls[i + 1][1]):
+                    sw = list(ls)
+                    sw[i], sw[i + 1] = sw[i + 1], sw[i]
+                    vs.append(sw)
+            for v in vs:
+                small.append({"op": "run", "env": {}, "version": None, "root": gen.mkcmd("app", decls=copy.deepcopy(sdecls), spec=sp, policy=0),
+                              "argv": [t for u in v for t in u[0]]})
+            sgroups.append((start, len(small)))
     # long lines: the same families with 5 to 9 units, so that a folded token stands far from the head of the line
     for _ in range(ctx.scale(600, 6000)):
         sp = rng.choice(sspecs + ["-b... -o...", "-o... -a...", "(-a | -o)... -b...", "[OPTIONS]"])
